@@ -10,13 +10,17 @@ PROP = dict(
                "boundary alphabet and random values on every run.",
     level_note="Trusted: Coq kernel, extraction (ExtrOcamlBasic), the OCaml driver, the Go harness; modelled not verified: "
                "bytes.Buffer / io.ByteReader (a list of bytes), Go uint32 arithmetic (written into the model as mod 2^32).",
-    engines=[dict(hx="vbi")],
+    engines=[dict(hx="vbi"), dict(hx="codec_par")],
     theorems=["C29_roundtrip", "C29_minimal", "C29_decode_is_spec", "C29_reject_big", "C29_reject_long"],
     model_files="coq/Codec/Vbi.v",
     rule="decode: every byte string of length <= 6 (thorough 7) over the boundary alphabet {00,01,7f,80,81,ff} "
          "(exhaustive), encoder outputs followed by junk, random strings with forced continuation bits; encode: "
          "boundaries +-3 and random values of random bit width (thorough: every value below 2^21+1024).  "
-         "non-trivial = multi-byte input / value > 127; distinct = distinct case lines",
+         "non-trivial = multi-byte input / value > 127; distinct = distinct case lines.  codec_par: 12 goroutines (thorough 16) "
+         "encode values (VerifEncodeLength) and whole packets concurrently for ~1.2 s (8 s), every output differing from a "
+         "sequential recomputation plus a sample is judged by the same Coq engines; plus one structural case: the go/ast "
+         "scan of packets/*.go (non-test) must list no package-level variable written inside a function (empty allow-list: "
+         "the unchanged package only has read-only tables and error values at package level)",
     exhaustive=False,
     modelled="packets/codec.go encodeLength, DecodeLength (entire functions)",
     assumptions=["bytes read from the io.ByteReader are the bytes of the list (bytes.Reader trusted)",
